@@ -10,7 +10,7 @@ import itertools
 import numpy as np
 
 from harness.common import bitstr, rowsstr, exc_class
-from harness.lat_rotplanar import (ENGINE, direct_code_checks, direct_flatten_checks, direct_distance_check,
+from harness.lat_rotplanar import (ENGINE, guard, direct_code_checks, direct_flatten_checks, direct_distance_check,
                                    ctor_args, ctor_result, int_like, kernel_code_items, kernel_shard, idxs,
                                    coq_rows, anti_matrix)
 
@@ -39,7 +39,7 @@ def check_c07(ctx):
         req += ['rt_code %d %d' % (r, c), 'rt_nkd %d %d' % (r, c), 'rt_pidx %d %d' % (r, c)]
     out = ctx.model(ENGINE, req)
     kern = []
-    for i, (r, c) in enumerate(sizes):
+    def whole(i, r, c):
         code = RotatedToricCode(r, c)
         inp = 'RotatedToricCode(%d,%d)' % (r, c)
         m = out[3 * i].split(' ')
@@ -73,9 +73,13 @@ def check_c07(ctx):
                   {'code': inp, 'n_k_d': list(code.n_k_d)} if (r, c) == (2, 4) else None)
         if (r, c) in ((2, 2), (2, 4), (4, 2), (4, 6), (6, 4)):
             kern.append(kernel_code_items('(rottoric_code %d %d)' % (r, c), code))
+
+    for i, (r, c) in enumerate(sizes):
+        guard(ctx, FAM, [r, c], lambda: whole(i, r, c))
     # ---- lattice Pauli API --------------------------------------------------------------------
     req, exp = [], []
-    for (r, c) in _sizes(small):
+
+    def api(r, c):
         code = RotatedToricCode(r, c)
         mx, my = code.bounds
         inp = 'RotatedToricCode(%d,%d)' % (r, c)
@@ -155,6 +159,11 @@ def check_c07(ctx):
             got = code.syndrome_to_plaquette_indices(s)
             req.append('rt_synd %d %d %s' % (r, c, bitstr(s)))
             exp.append(('rottoric.syndrome_to_plaquette_indices', inp + ' ' + bitstr(s), idxs(sorted(got))))
+
+    for (r, c) in _sizes(small):
+        if not guard(ctx, FAM, [r, c], lambda: api(r, c)):
+            m = min(len(req), len(exp))
+            del req[m:], exp[m:]
     out = ctx.model(ENGINE, req)
     for (fn, inp, impl), m, line in zip(exp, out, req):
         if fn.endswith('syndrome_to_plaquette_indices') and m != '-' and not m.startswith('ERR'):
@@ -180,23 +189,25 @@ def check_c07(ctx):
 
 def check_c08(ctx):
     from qecsim.models.rotatedtoric import RotatedToricCode
-    lim = ctx.pick(24, 36)
-    for (r, c) in _sizes(ctx.pick(6, 6)):
-        if r * c > lim:
-            continue
+    # quick: n <= 24 (up to 4x6 / 6x4); thorough: every even size <= 8x8 with min(rows, cols) <= 6
+    searched = [(r, c) for (r, c) in _sizes(ctx.pick(6, 8)) if (r * c <= 24 if ctx.quick else min(r, c) <= 6)]
+    for (r, c) in searched:
         code = RotatedToricCode(r, c)
-        direct_distance_check(ctx, FAM, (r, c), code)
+        guard(ctx, FAM, [r, c], lambda: direct_distance_check(ctx, FAM, (r, c), code))
         ctx.count((FAM, 'dist', r, c), r != c or min(r, c) >= 3, 'rottoric-distance',
                   {'code': repr(code), 'n_k_d': list(code.n_k_d)} if (r, c) == (2, 4) else None)
     for (r, c) in _sizes(ctx.pick(12, 18)):
-        if r * c <= lim:
+        if (r, c) in searched:
             continue
-        code = RotatedToricCode(r, c)
-        n, k, d = code.n_k_d
-        w = [int(np.count_nonzero(v[:n] + v[n:])) for v in np.vstack([code.logical_xs, code.logical_zs])]
-        if min(w) != d:
-            ctx.violation(FAM + '-logical-weights', 'lightest supplied logical has weight %d, advertised d=%d' % (min(w), d),
-                          {'family': FAM, 'size': [r, c]})
+        def lw():
+            code = RotatedToricCode(r, c)
+            n, k, d = code.n_k_d
+            w = [int(np.count_nonzero(v[:n] + v[n:])) for v in np.vstack([code.logical_xs, code.logical_zs])]
+            if min(w) != d:
+                ctx.violation(FAM + '-logical-weights', 'lightest supplied logical has weight %d, advertised d=%d' % (min(w), d),
+                              {'family': FAM, 'size': [r, c]})
+
+        guard(ctx, FAM, [r, c], lw)
         ctx.count((FAM, 'lw', r, c), r != c, 'rottoric-logical-weight')
 
 
@@ -230,7 +241,8 @@ def check_c15(ctx):
                      '(delta_parallel + delta_diagonal = max(box_width, box_height) for same-type plaquettes)'
                      % (ext, ext, hi, hi))
     kern = []
-    for (r, c) in _sizes(hi):
+
+    def per_size(r, c):
         code = RotatedToricCode(r, c)
         mx, my = code.bounds
         n = code.n_k_d[0]
@@ -336,4 +348,7 @@ def check_c15(ctx):
         out = ctx.model(ENGINE, req)
         for (fn, inp, impl), m in zip(exp, out):
             ctx.cmp(fn, inp, impl, m)
+
+    for (r, c) in _sizes(hi):
+        guard(ctx, FAM, [r, c], lambda: per_size(r, c))
     kernel_shard(ctx, 'rottoric_paths', kern)
